@@ -170,11 +170,26 @@ type SVGImage struct {
 
 func (SVGImage) isImage() {}
 
+// nestedFetcher returns a fetcher which refuses to load [baseURL] again :
+// it guards against cyclic references between SVG images (a.svg <-> b.svg).
+func nestedFetcher(urlFetcher utils.UrlFetcher, baseURL string) utils.UrlFetcher {
+	if baseURL == "" {
+		return urlFetcher
+	}
+	return func(url string) (utils.RemoteRessource, error) {
+		if url == baseURL {
+			return utils.RemoteRessource{}, fmt.Errorf("cyclic reference to %s", url)
+		}
+		return urlFetcher(url)
+	}
+}
+
 func NewSVGImage(svgData io.Reader, baseURL string, urlFetcher utils.UrlFetcher) (SVGImage, error) {
 	// don’t pass data URIs: they are useless for relative URIs anyway.
 	if strings.HasPrefix(strings.ToLower(baseURL), "data:") {
 		baseURL = ""
 	}
+	urlFetcher = nestedFetcher(urlFetcher, baseURL)
 
 	imageLoader := func(url string) (backend.Image, error) {
 		return getImageFromUri(urlFetcher, false, url, "", pr.SBoolFloat{})
